@@ -173,7 +173,7 @@ def opsC06 : List (String × Handler) := [
         | none => throw "raise"
         | some r => return fmtOutPairs r
       | _ => throw "arity"),
-  -- c06.view n s… (L dim start step len | S dim idx | E n s'…)*   → offset, strides and lshape of the view of a contiguous tensor
+  -- c06.view n s… (L dim start step len | S dim idx | E n s'… | P n p…)*   → offset, strides and lshape of the view of a contiguous tensor
   ("c06.view", fun ts => do
       let (s, r1) ← takeList ts
       let rec go (fuel : Nat) (v : View Nat) (ts : List String) : Except String (View Nat) :=
@@ -187,6 +187,10 @@ def opsC06 : List (String × Handler) := [
         | f + 1, "E" :: rest => do
           let (s', r2) ← takeList rest
           go f (v.expand s') r2
+        | f + 1, "P" :: rest => do
+          let (p, r2) ← takeList rest
+          if !(isPerm p v.shape.length) then throw "raise"
+          go f (v.permute p) r2
         | _, _ => throw "token"
       let v ← go ts.length (View.ofT (tagT s)) r1
       return s!"{v.offset} | {fmtShape v.strides} | {fmtShape v.shape}"),
